@@ -180,6 +180,15 @@ def run(ctx, what, n_cases, ref=False, gen_kwargs=None, cases=None):
         if len(samples) < 5:
             samples.append({"formula": pretty(c), "impl": {k: o[k] for k in ("value", "error")},
                             "model": {"value": mv, "error": me}})
+    # a failing side computation earlier in the same session may be what a later case needs in
+    # order to fail: make every replayable case self-contained
+    first_fault = next((i for i, c in enumerate(cases) if c.get("fault")), None)
+    if first_fault is not None:
+        idx = {id(c): i for i, c in enumerate(cases)}
+        for f in failures:
+            c = f.get("case")
+            if c is not None and not c.get("fault") and idx.get(id(c), -1) > first_fault:
+                f["case"] = dict(c, fault=True)
     return {"evaluations": len(cases), "nontrivial": nontrivial, "failures": failures,
             "samples": samples, "distribution": dict(dist), "skipped": skipped}
 
